@@ -26,6 +26,25 @@ def HistoryIndependentNew (D : Defaults) (T : Translator) (h : List OpO) (p : Pr
 def HistoryIndependentOn (D : Defaults) (T : Translator) (h : List OpO) (p : Probe) (e : Nat) : Prop :=
   runProbeOn D T (runO D h s₀) p e = freshResult D T p
 
+/-! ### histories whose translations are answered by `T` itself -/
+
+/-- what the translator proper answers for this translation in state `s` (irrelevant when
+`process_metadata` raises first) -/
+def answerOf (T : Translator) (s : HState) (e : Nat) (q : Query) (md : List MdItem) : TRes :=
+  match s.execs[e]? with
+  | none => ⟨.ok, "", 0⟩
+  | some ex =>
+    let m := mdRun (effXmd s ex) ⟨s.reg, s.ns, []⟩ md 0
+    T q md (mkView ex.backend q m.1 (ex.job ++ jobsOf m.1.specs))
+
+/-- the history with the answers `T` gives along the way written down -/
+def record (D : Defaults) (T : Translator) : List Op → HState → List OpO
+  | [], _ => []
+  | .new b :: h, s => .new b :: record D T h (newExec D s b)
+  | .addXmd e x :: h, s => .addXmd e x :: record D T h (addXmd s e x)
+  | .translate e q md :: h, s =>
+    .translate e q md (answerOf T s e q md) :: record D T h (step D T s (.translate e q md))
+
 /-! ### footprints of metadata -/
 
 /-- kinds of the extended-metadata items (what `process_metadata` looks up in `_extended_md`) -/
@@ -113,7 +132,7 @@ def benignNew (D : Defaults) (p : Probe) (s : HState) : OpO → Bool
  * a translation on `e₀` that found extended metadata of a kind the probe asks for (never reset);
  * a translation on `e₀` that failed in `write_cpp_files` after appending job-script blocks. -/
 def benignOn (D : Defaults) (p : Probe) (e₀ : Nat) (s : HState) : OpO → Bool
-  | .new _ => true
+  | .new b' => decide (s.execs.length ≠ e₀) || decide (b' = p.b)   -- `e₀` is an executor of the probe's backend
   | .addXmd e x =>
     match s.execs[e]? with
     | none => true
@@ -254,8 +273,24 @@ def D₀ : Defaults
   | .cmsAod => [(("reco::Muon", "globalTrack"), "terminal|reco::Track*")]
   | .cmsMiniaod => [(("pat::Muon", "globalTrack"), "terminal|reco::TrackRef*")]
 
-/-- the most discriminating translator: it shows everything it was given -/
-def Tshow : Translator := fun _ _ v => ⟨.ok, reprStr v, 0⟩
+/-- a translator whose output column has the type the registry gives for `k` (`double` if none) -/
+def Tkey (k : Key) : Translator := fun _ _ v =>
+  match alookup v.regAt k with
+  | some (some info) => ⟨.ok, info, 0⟩
+  | _ => ⟨.ok, "double", 0⟩
+
+/-- a translator that can render `<t>.….<value>` only if some enum below `t` has that value -/
+def Tenum (t value : String) : Translator := fun _ _ v =>
+  match alookup v.nsAt t with
+  | some n => if n.enums.any (fun e => decide (value ∈ e.2)) then ⟨.ok, "enum value rendered", 0⟩ else ⟨.failWrite, "RuntimeError", 0⟩
+  | none => ⟨.failWrite, "RuntimeError", 0⟩
+
+/-- a translator that copies the accumulated job-script blocks into the package -/
+def Tjob : Translator := fun _ _ v =>
+  if v.job.isEmpty then ⟨.ok, "no job-script lines", 0⟩ else ⟨.ok, "job-script lines", 0⟩
+
+/-- a translator that ignores everything -/
+def Tconst : Translator := fun _ _ _ => ⟨.ok, "", 0⟩
 
 def okRes : TRes := ⟨.ok, "", 0⟩
 def failWriteRes : TRes := ⟨.failWrite, "AssertionError", 0⟩
@@ -263,6 +298,9 @@ def failWriteRes : TRes := ⟨.failWrite, "AssertionError", 0⟩
 def jetPt : Query := ⟨"atlas.jets_pt", [("xAOD::Jet", "pt")], []⟩
 def badWrite : Query := ⟨"atlas.bad_write", [], []⟩
 def enumQ : Query := ⟨"atlas.enum_red", [("xAOD::Jet", "color")], ["xAOD"]⟩
+def enumBlueQ : Query := ⟨"atlas.enum_blue", [("xAOD::Jet", "color")], ["xAOD"]⟩
+def customMuQ : Query := ⟨"atlas.custom_muon_track", [("reco::Muon", "globalTrack"), ("reco::Track", "pt")], []⟩
+def recoMuColl : MdItem := .collection "atlas" "RecoMuons" ""
 def truthQ : Query := ⟨"atlas.truth_vtx", [("xAOD::TruthParticle", "prodVtx"), ("xAODTruth::TruthVertex", "x")], []⟩
 def muonPt : Query := ⟨"cms_aod.muons_pt", [("reco::Muon", "pt")], []⟩
 
@@ -287,7 +325,7 @@ def enumStays : List OpO × Probe :=
 
 /-- (b') and the first definition wins: the later query's own definition is ignored -/
 def enumFirstWins : List OpO × Probe :=
-  ([.new .atlas, .translate 0 jetPt [colorEnumRedOnly] okRes], ⟨.atlas, [], enumQ, [colorEnum]⟩)
+  ([.new .atlas, .translate 0 jetPt [colorEnumRedOnly] okRes], ⟨.atlas, [], enumBlueQ, [colorEnum]⟩)
 
 /-- (c) a successful translation on a CMS executor installs the CMS defaults; the live ATLAS
 executor has lost its own -/
@@ -296,7 +334,7 @@ def crossBackendReset : (List OpO × Probe) × Nat :=
 
 /-- (c') creating a CMS executor leaves the CMS defaults in the registry an ATLAS query reads -/
 def crossBackendNew : List OpO × Probe :=
-  ([.new .cmsAod], ⟨.atlas, [], ⟨"atlas.custom_muon_track", [("reco::Muon", "globalTrack")], []⟩, []⟩)
+  ([.new .cmsAod], ⟨.atlas, [], customMuQ, [recoMuColl]⟩)
 
 /-- (d) `add_extended_md` on a never-reset executor writes into the constructor's default dict:
 every executor created later accepts that metadata kind -/
